@@ -9,6 +9,7 @@ every operation maps proper rigid poses to proper rigid poses, so `check()` pass
 Helper lemmas: `Lemmas/Traj.lean`.
 -/
 import EvoModel.Lemmas.Traj
+import EvoModel.Lemmas.TrajDerived
 namespace Evo.C08
 open Evo Evo.Traj
 
@@ -703,5 +704,135 @@ example : (run (initSe3 [p1, p2, p3] (some [0, 1, 2])) [.reduceInt [0, -1], .rea
 /-- second projection refused -/
 example : (run (initSe3 [p1, p2] none) [.project 2 [rz, M3.one], .project 2 [rz, M3.one], .read .pos]).2
     = [.unit, .err, .vecs [⟨1, 2, 0⟩, ⟨4, 5, 0⟩]] := by decide +kernel
+
+/-! ### derived quantities under the operations
+
+`path_length`, `distances` and `speeds` are `√` / cumulative sums / quotients of the squared step
+lengths `segSq` of the positions (`derived_quantities` ties the machine's read to them), `duration`
+is the difference of the last and the first stamp. Helper lemmas: `Lemmas/TrajDerived.lean`. -/
+
+/-- a left multiplication by a rigid transformation (orthonormal rotation block) changes no step
+length: path length, accumulated distances and speeds are unchanged -/
+theorem segSq_left_rigid (T : P) (hT : IsRigid T) (ps : List P) :
+    segSq ((ps.map (T.mul ·)).map (·.t)) = segSq (ps.map (·.t)) := by
+  rw [positions_mul_left]
+  exact segSq_map_of_isometry _ (rigid_dist hT T.t) _
+
+example : segSq (([p1, p2, p3].map (T0.mul ·)).map (·.t)) = [27, 49] ∧ segSq ([p1, p2, p3].map (·.t)) = [27, 49] := by
+  decide +kernel
+example : IsRigid T0 := by unfold IsRigid IsOrtho; decide +kernel
+
+/-- the same on the abstract trajectory: `transform(T)` with a rigid `T` keeps every step length -/
+theorem transformL_keeps_step_lengths (a : ATraj) (T : P) (hT : IsRigid T) :
+    segSq ((poses (specStep a (.transform .left T none)).1.items).map (·.t))
+      = segSq ((poses a.items).map (·.t)) := by
+  rw [(transformL_effect a T).1]
+  exact segSq_left_rigid T hT _
+
+example : segSq ((poses (specStep (ATraj.init [p1, p2, p3] (some [0, 1, 2])) (.transform .left T0 none)).1.items).map (·.t))
+    = [27, 49] := by decide +kernel
+
+/-- scaling the positions by `c` multiplies every squared step length by `c²` (path length and
+distances by `|c|`) -/
+theorem segSq_scale (c : Rat) (ps : List P) :
+    segSq ((ps.map (scalePose c)).map (·.t)) = (segSq (ps.map (·.t))).map (c * c * ·) := by
+  rw [(scale_views c ps).1]
+  exact segSq_map_of_dist _ _ (scale_dist c) _
+
+example : segSq (([p1, p2, p3].map (scalePose 3)).map (·.t)) = [243, 441] := by decide +kernel
+
+/-- `scale(c)` on the abstract trajectory -/
+theorem scale_scales_step_lengths (a : ATraj) (c : Rat) :
+    segSq ((poses (specStep a (.scale c)).1.items).map (·.t))
+      = (segSq ((poses a.items).map (·.t))).map (c * c * ·) := by
+  have hl : ((List.map (scalePose c)) (poses a.items)).length = a.items.length := by simp
+  have e : poses (specStep a (.scale c)).1.items = (poses a.items).map (scalePose c) := poses_onPoses _ _ hl
+  rw [e]
+  exact segSq_scale c _
+
+example : segSq ((poses (specStep (ATraj.init [p1, p2, p3] none) (.scale (-1 / 2))).1.items).map (·.t))
+    = [27 / 4, 49 / 4] := by decide +kernel
+
+/-- a similarity `T = [sR t; 0 1]` (orthonormal `R`) applied from the left, with the Sim(3)
+normalisation, multiplies every squared step length by `s²` -/
+theorem similarity_scales_step_lengths (a : ATraj) (R : M3 Rat) (hR : IsOrtho R) (t : V3 Rat) (s : Rat) :
+    segSq ((poses (specStep a (.transform .left (Pose.sim3 R t s) (some s))).1.items).map (·.t))
+      = (segSq ((poses a.items).map (·.t))).map (s * s * ·) := by
+  rw [(spec_transform_poses a .left _ _).1, positions_sim3_left]
+  exact segSq_map_of_dist _ _ (similarity_dist hR s t) _
+
+example : segSq ((poses (specStep (ATraj.init [p1, p2, p3] none)
+      (.transform .left (Pose.sim3 rz ⟨1, 1, 1⟩ 2) (some 2))).1.items).map (·.t)) = [108, 196] := by
+  decide +kernel
+
+/-- a contiguous window of positions (`k` positions from index `i`) has the corresponding window of
+steps (`k − 1` steps from index `i`) -/
+theorem segSq_drop_take (l : List (V3 Rat)) (i k : Nat) :
+    segSq ((l.drop i).take k) = ((segSq l).drop i).take (k - 1) := by
+  rw [segSq_take, segSq_drop]
+
+example : segSq ((([⟨0, 0, 0⟩, ⟨1, 0, 0⟩, ⟨1, 2, 0⟩, ⟨1, 2, 3⟩, ⟨5, 2, 3⟩] : List (V3 Rat)).drop 1).take 3) = [4, 9] ∧
+    segSq ([⟨0, 0, 0⟩, ⟨1, 0, 0⟩, ⟨1, 2, 0⟩, ⟨1, 2, 3⟩, ⟨5, 2, 3⟩] : List (V3 Rat)) = [1, 4, 9, 16] := by
+  decide +kernel
+
+/-- reducing to the contiguous index range `i, i+1, …, i+k−1` keeps exactly the steps between the
+kept poses: the step lengths afterwards are the window `drop i |>.take (k − 1)` of the step lengths
+before (so the path length of the kept part is the difference of the accumulated distances) -/
+theorem reduce_consecutive_keeps_steps (a : ATraj) (i k : Nat) :
+    segSq ((poses (specStep a (.reduce (List.range' i k))).1.items).map (·.t))
+      = ((segSq ((poses a.items).map (·.t))).drop i).take (k - 1) := by
+  have e : poses (specStep a (.reduce (List.range' i k))).1.items = ((poses a.items).drop i).take k := by
+    show poses (reduceIds a.items (List.range' i k)) = _
+    rw [reduceIds_range']; simp [poses, List.map_take, List.map_drop]
+  rw [e, List.map_take, List.map_drop]
+  exact segSq_drop_take _ i k
+
+example : segSq ((poses (specStep (ATraj.init [p1, p2, p3, p1] none) (.reduce (List.range' 1 3))).1.items).map (·.t))
+    = [49, 70] ∧ segSq ((poses (ATraj.init [p1, p2, p3, p1] none).items).map (·.t)) = [27, 49, 70] := by
+  decide +kernel
+
+/-- **counterexample**: right multiplication by a rigid transformation with a non-zero translation is
+not an isometry of the positions when the orientations differ (the translation is applied in each
+pose's own frame): identity at the origin and a quarter turn about `z` at `(1, 0, 0)`, both moved by
+the translation `(2, 0, 0)` in their body frame, are `√5` apart instead of `1` -/
+theorem transformR_changes_step_lengths_counterexample :
+    ∃ (ps : List P) (T : P), (∀ p ∈ ps, Proper p) ∧ Proper T ∧
+      segSq ((ps.map (·.mul T)).map (·.t)) ≠ segSq (ps.map (·.t)) := by
+  refine ⟨[⟨M3.one, ⟨0, 0, 0⟩⟩, ⟨rz, ⟨1, 0, 0⟩⟩], ⟨M3.one, ⟨2, 0, 0⟩⟩, ?_, ?_, by decide +kernel⟩
+  · intro p hp
+    simp only [List.mem_cons, List.not_mem_nil, or_false] at hp
+    rcases hp with rfl | rfl
+    · exact ⟨IsOrtho.one, by decide +kernel⟩
+    · exact ⟨by unfold IsOrtho; decide +kernel, by decide +kernel⟩
+  · exact ⟨IsOrtho.one, by decide +kernel⟩
+
+example : segSq ((([⟨M3.one, ⟨0, 0, 0⟩⟩, ⟨rz, ⟨1, 0, 0⟩⟩] : List P).map (fun p => p.mul ⟨M3.one, ⟨2, 0, 0⟩⟩)).map (·.t)) = [5] ∧
+    segSq (([⟨M3.one, ⟨0, 0, 0⟩⟩, ⟨rz, ⟨1, 0, 0⟩⟩] : List P).map (·.t)) = [1] := by decide +kernel
+/-- with the translation `(1, 0, 0)` the same two poses happen to stay at distance `1` -/
+example : segSq ((([⟨M3.one, ⟨0, 0, 0⟩⟩, ⟨rz, ⟨1, 0, 0⟩⟩] : List P).map (fun p => p.mul ⟨M3.one, ⟨1, 0, 0⟩⟩)).map (·.t)) = [1] := by
+  decide +kernel
+
+/-- the operations that rewrite the poses in place (transform, scale, align, align_origin, project)
+leave the stamp list — hence the duration and the denominators of the speeds — unchanged -/
+theorem stamps_unchanged_by_geometric_ops (a : ATraj) (op : Op) (h : op.isGeometric = true) :
+    stampsOf (specStep a op).1.items = stampsOf a.items :=
+  stampsOf_specStep_of_not_selection a op (Op.not_selection_of_geometric h)
+
+example : (Op.transform .prop T0 none).isGeometric = true ∧ (Op.project 2 [rz]).isGeometric = true ∧
+    (Op.reduce [0]).isGeometric = false := by decide
+example : stampsOf (specStep (ATraj.init [p1, p2, p3] (some [0, 1, 2])) (.align .withScale rz ⟨1, 1, 1⟩ 2 none)).1.items
+    = [some 0, some 1, some 2] := by decide +kernel
+
+/-- more generally: every operation except the selecting ones (`reduce_to_ids`, `downsample`,
+`motion_filter`, `reduce_to_time_range`) leaves the stamp list unchanged -/
+theorem stamps_unchanged_unless_selection (a : ATraj) (op : Op) (h : op.isSelection = false) :
+    stampsOf (specStep a op).1.items = stampsOf a.items :=
+  stampsOf_specStep_of_not_selection a op h
+
+example : Op.copy.isSelection = false ∧ (Op.read .dist).isSelection = false ∧ (Op.crop [0]).isSelection = true := by
+  decide
+/-- a selection does change the stamps -/
+example : stampsOf (specStep (ATraj.init [p1, p2, p3] (some [0, 1, 2])) (.reduce [0, 2])).1.items = [some 0, some 2] := by
+  decide +kernel
 
 end Evo.C08
